@@ -327,6 +327,7 @@ type dagCase struct {
 	Perm   []int
 	Kind   int // 1 prev events, 2 auth events, 3 LineariseStateResponse
 	Dup    int // index of a node listed twice, -1 none
+	Twice  int `json:",omitempty"` // bitmask: nodes whose own reference list names each referenced event twice
 }
 
 func dagEvents(c dagCase) ([]gmsl.PDU, map[string][]string, error) {
@@ -349,6 +350,9 @@ func dagEvents(c dagCase) ([]gmsl.PDU, map[string][]string, error) {
 			}
 		}
 		anc[ids[i]] = append([]string(nil), refs...)
+		if c.Twice&(1<<i) != 0 {
+			refs = append(refs, refs...) // nothing forbids an event from citing the same event more than once
+		}
 		if c.Ext&(1<<i) != 0 {
 			refs = append(refs, "$outside:a.org")
 		}
@@ -572,7 +576,7 @@ func main() { harness.Main("C11", "model_checking", run) }
 
 func run(r *harness.Run) {
 	verifhook.Chooser = chooser
-	r.Rule("(1) scenarios of C10's generator with conflicts (all single-action branch pairs and a fixed family of two-action pairs; versions 1, 10, 12; three tie-break modes): every order of the state sets, every order of the events inside each set (all k! for k<=4, else identity/reverse/rotations/adjacent swaps), every such order of the auth list, each auth event duplicated (front and back), all-equal sets, and the deprecated flat entry point under every such order of its event and auth lists; (2) on the instrumented build every map range and set Slice() inside the library is a choice point: deviation-bounded DFS (bound B) over non-default iteration orders, both entry points; (3) every labelled DAG on <= N events (edges by prev events / auth events / through LineariseStateResponse, with references to events outside the set), 3 timestamp x 2 ID patterns, every presentation order, one event listed twice. Oracles: identical resolved ID set, well-formedness (<=1 event per key, only supplied events, agreed keys kept, equal sets -> that state), topological validity. Non-trivial = distinct map-range site exercised + distinct scenario with a conflict.")
+	r.Rule("(1) scenarios of C10's generator with conflicts (all single-action branch pairs and a fixed family of two-action pairs; versions 1, 10, 12; three tie-break modes): every order of the state sets, every order of the events inside each set (all k! for k<=4, else identity/reverse/rotations/adjacent swaps), every such order of the auth list, each auth event duplicated (front and back), all-equal sets, and the deprecated flat entry point under every such order of its event and auth lists; (2) on the instrumented build every map range and set Slice() inside the library is a choice point: deviation-bounded DFS (bound B) over non-default iteration orders, both entry points; (3) every labelled DAG on <= N events (edges by prev events / auth events / through LineariseStateResponse, with references to events outside the set, and with reference lists that name the same event twice), 3 timestamp x 2 ID patterns, every presentation order, one event listed twice. Oracles: identical resolved ID set, well-formedness (<=1 event per key, only supplied events, agreed keys kept, equal sets -> that state), topological validity. Non-trivial = distinct map-range site exercised + distinct scenario with a conflict.")
 	r.Assume("each order offered for a map range is a legal Go iteration order, so a divergence under instrumentation is a behaviour of the shipped code", "maps larger than 4 are explored with identity/reverse/rotations/adjacent swaps only")
 	r.OnReplay("presentation", func(raw json.RawMessage) error {
 		var sc scenario
@@ -710,6 +714,12 @@ func run(r *harness.Run) {
 			for _, ext := range []int{0, 1 << (n - 1), (1 << n) - 1} {
 				dags = append(dags, dagCase{N: n, Edges: edges, Ext: ext})
 			}
+			// reference lists that repeat their entries: on the last node, on every node, on every node but the last
+			if n >= 2 && mask != 0 {
+				for _, tw := range []int{1 << (n - 1), (1 << n) - 1, (1 << (n - 1)) - 1} {
+					dags = append(dags, dagCase{N: n, Edges: edges, Twice: tw})
+				}
+			}
 		}
 	}
 	r.Parallel(len(dags), func(i int) {
@@ -722,9 +732,9 @@ func run(r *harness.Run) {
 							if dup >= 0 && (ts != 0 || id != 0) {
 								continue
 							}
-							c := dagCase{N: d.N, Edges: d.Edges, Ext: d.Ext, TS: ts, ID: id, Perm: perm, Kind: kind, Dup: dup}
+							c := dagCase{N: d.N, Edges: d.Edges, Ext: d.Ext, TS: ts, ID: id, Perm: perm, Kind: kind, Dup: dup, Twice: d.Twice}
 							if err := checkDAG(r, c); err != nil {
-								r.Violation(fmt.Sprintf("dag:kind%d/%s:n=%d edges=%v ext=%d ts=%d id=%d perm=%v dup=%d", kind, strings.SplitN(err.Error(), " ", 3)[1], d.N, d.Edges, d.Ext, ts, id, perm, dup), err.Error(), "dag", c)
+								r.Violation(fmt.Sprintf("dag:kind%d/%s:n=%d edges=%v ext=%d tw=%d ts=%d id=%d perm=%v dup=%d", kind, strings.SplitN(err.Error(), " ", 3)[1], d.N, d.Edges, d.Ext, d.Twice, ts, id, perm, dup), err.Error(), "dag", c)
 							}
 						}
 					}
